@@ -19,8 +19,9 @@ def main() -> int:
     ap.add_argument("--shards", type=int, default=0)
     a = ap.parse_args()
 
-    from vf import common
+    from vf import common, simclock
 
+    simclock.install()       # (before the library is imported; outside a scenario the real clocks answer)
     common.setup_path()
     prop = a.prop.upper()
     try:
